@@ -46,9 +46,11 @@ def mutate(rng):
         elif f == "esc_norm":
             kw["esc_norm"] = rng.choice(["n", "mass", "", "NM"])
         elif f == "bh_method":
-            kw["BH_IFMR_method"] = rng.choice(["banerjee", "fryer", ""])
+            # wholly unknown names, and names that only START like a documented one (a typo in the supernova prescription, a doubled suffix)
+            kw["BH_IFMR_method"] = rng.choice(["banerjee", "fryer", "", "ba20-delayd", "banerjee20-fast", "nbody7-", "ba20-rapid-delayed", "cosmic-fast", "linear-rapid",
+                                               "cosmic_rapid", "powerlaw2"])
         elif f == "wd_method":
-            kw["WD_IFMR_method"] = rng.choice(["mist", "kalirai"])
+            kw["WD_IFMR_method"] = rng.choice(["mist", "kalirai", "mist18-rapid", "mist-2018", "linear-"])
         elif f == "analytic":
             kw["BH_IFMR_method"] = "linear"
             if rng.random() < 0.5:
